@@ -53,13 +53,39 @@ def main():
             out.append(2)
         except Exception:
             out.append(9)
+    # histories: compare (all six operators, so that anything memoised is filled), change an attribute of the first operand in place,
+    # compare again — the second answer must be the one for the CHANGED values
+    muts = []
+    for op, a, b, path, newval in req.get("mutations", []):
+        try:
+            x, y = build(a), build(b)
+            for o_ in OPS.values():
+                try:
+                    o_(x, y)
+                except Exception:
+                    pass
+            try:
+                hash_before = None
+                repr(x)
+            except Exception:
+                pass
+            tgt = x
+            for name in path[:-1]:
+                tgt = getattr(tgt, name)
+            setattr(tgt, path[-1], newval)
+            r = OPS[op](x, y)
+            muts.append(1 if r is True else 0 if r is False else 9)
+        except TypeError:
+            muts.append(2)
+        except Exception:
+            muts.append(9)
     reprs = []
     for v in req.get("reprs", []):
         try:
             reprs.append(repr(build(v)))
         except Exception:
             reprs.append(None)
-    json.dump({"cases": out, "reprs": reprs}, sys.stdout)
+    json.dump({"cases": out, "reprs": reprs, "mutations": muts}, sys.stdout)
 
 
 main()
